@@ -10,3 +10,10 @@ func VerifNewHevcCacheStream(path string, cacheGop bool) *Stream {
 	s.cache = cache.NewHevcCache(cacheGop)
 	return s
 }
+
+// VerifNewFlvCacheStream builds a stream whose FLV side has a real FlvCache but no muxer goroutine.
+func VerifNewFlvCacheStream(path string, cacheGop bool) *Stream {
+	s := VerifNewBareStream(path)
+	s.flvCache = cache.NewFlvCache(cacheGop)
+	return s
+}
